@@ -244,7 +244,28 @@ impl SnmpSocket for SnmpV3ClientSocket {
         self.auth_key.sign(buf.data_mut(), offset)
     }
 
-    fn unwrap_pdu<'a>(&'a mut self, msg: Self::Message<'a>) -> Option<SnmpPdu<'a>> {
+    fn unwrap_pdu<'a>(
+        &'a mut self,
+        msg: Self::Message<'a>,
+        raw: &'a [u8],
+    ) -> Option<SnmpPdu<'a>> {
+        // RFC-3414, pp. 3.2, 6: Authenticate incoming message.
+        // msgAuthenticationParameters is the part of the datagram,
+        // so its offset is the distance between the pointers.
+        let authenticated = self.auth_key.has_auth()
+            && msg.flag_auth
+            && (msg.usm.auth_params.as_ptr() as usize)
+                .checked_sub(raw.as_ptr() as usize)
+                .is_some_and(|offset| {
+                    self.auth_key
+                        .verify(raw, offset, msg.usm.auth_params.len())
+                });
+        if self.auth_key.has_auth() && msg.flag_auth && !authenticated {
+            return None; // Wrong digest
+        }
+        let encrypted = matches!(msg.data, MsgData::Encrypted(_));
+        let has_auth = self.auth_key.has_auth();
+        let has_priv = self.priv_key.has_priv();
         // Get and decode scoped pdu
         let data = match msg.data {
             MsgData::Plaintext(x) => x,
@@ -258,6 +279,13 @@ impl SnmpSocket for SnmpV3ClientSocket {
             && (self.engine_id.is_empty() || msg.usm.engine_id == self.engine_id)
             && self.msg_id.check(msg.msg_id)
             && data.pdu.check(&self.request_id))
+        {
+            return None;
+        }
+        // RFC-3414, pp. 3.2, 5: Only reports may arrive
+        // at the lower security level than the session has
+        if !matches!(data.pdu, SnmpPdu::Report(_))
+            && ((has_auth && !authenticated) || (has_priv && !encrypted))
         {
             return None;
         }
